@@ -303,6 +303,34 @@ def updateOpsetImports (sorted : Bool) (imports : List (String × Nat)) (iter : 
   order.foldl (fun imps o =>
     if (imps.lookup o.1).isSome then imps else imps ++ [(o.1, o.2.getD 1)]) imports
 
+/-! ## 5c. Rewriter: fresh names for values a replacement adds (`RewriteRuleSet._value_names`) -/
+
+def freshLoop (names : List String) (base : String) : Nat → Nat → String
+  | 0, suffix => base ++ "_" ++ toString suffix
+  | fuel + 1, suffix =>
+    if names.contains (base ++ "_" ++ toString suffix) then freshLoop names base fuel (suffix + 1)
+    else base ++ "_" ++ toString suffix
+
+/-- `RewriteRuleSet._fresh_value_name`: `suffix = 1; while f"{base}_{suffix}" in names: suffix += 1`,
+the new name is added to the set -/
+def freshValueName (names : List String) (base : String) : String × List String :=
+  let n := freshLoop names base (names.length + 1) 1
+  (n, n :: names)
+
+def freshMany : List String → String → Nat → List String × List String
+  | names, _, 0 => ([], names)
+  | names, base, k + 1 =>
+    let r := freshValueName names base
+    let rs := freshMany r.2 base k
+    (r.1 :: rs.1, rs.2)
+
+/-- `apply_to_model(model)`: `self._value_names = _collect_value_names(model)` first (`reset = true`,
+the code as it is), then `k` values are named; `reset = false` is a rule set that keeps accumulating the
+names of every model it has seen.  Returns (new names, state left on the rule set object). -/
+def applyNames (reset : Bool) (state : List String) (modelNames : List String) (k : Nat) :
+    List String × List String :=
+  freshMany (if reset then modelNames else modelNames ++ state) "val" k
+
 /-! ## 6. Globals, decoration, protos, eager calls -/
 
 /-- body of a script: one expression over the input `x` and global names -/
